@@ -86,6 +86,10 @@ func c02Templates(tier string) []string {
 				"f(a "+o1+" b) "+o2+" c", "[a "+o1+" b, c "+o2+" d]")
 			if tier == "thorough" {
 				add("a "+o1+" (b "+o2+" c) "+o1+" d", "(a "+o1+" b "+o2+" c)", "if a "+o1+" b {c "+o2+" d}")
+				if o1 == o2 {
+					// same class (and same known-finding key) as a op (b op c): parentheses of a same-operator right operand
+					c02Family["a "+o1+" (b "+o2+" c) "+o1+" d"] = "a " + o1 + " (b " + o2 + " c)"
+				}
 			}
 		}
 		for _, p := range rtPrefix {
